@@ -68,9 +68,21 @@ def check_carry(chk):
             chk.bad('C16.M', lf.mod, lf.pyname, f'{u} block: {p.split(":")[0][:60]}', f'datetimeNew {u} normalisation: {p}', node=s)
         if not probs:
             chk.ok('C16.M', f'{u}: if out of range: extra = {"(x - 1)" if b["shift"] else "x"} // {want}; x -= extra * {want}; {CARRY_TO[u]} += extra')
+    reassigned = set()
+    for n in walk_no_nested(func):
+        if isinstance(n, (ast.Assign, ast.AugAssign)):
+            for t in (n.targets if isinstance(n, ast.Assign) else [n.target]):
+                for x in ast.walk(t):
+                    if isinstance(x, ast.Name):
+                        reassigned.add(x.id)
+    var_of = {u: v for v, u in unit_of.items()} if isinstance(unit_of, dict) else {}
     for u in MODULUS:
         if u not in seen:
-            chk.bad('C16.M', lf.mod, lf.pyname, f'no carry block for {u}', f'out-of-range {u} values are not normalised', node=func)
+            v = var_of.get(u, u)
+            if v in reassigned or u in reassigned:
+                chk.unrec('C16.M', f'the normalisation of {u} is not an inline carry block (the variable is reassigned some other way, e.g. through a helper): not decided', lf.mod.rel)
+            else:
+                chk.bad('C16.M', lf.mod, lf.pyname, f'no carry block for {u}', f'out-of-range {u} values are not normalised', node=func)
     order = [u for u in seen if u in ('millisecond', 'second', 'minute', 'hour')]
     if order == ['millisecond', 'second', 'minute', 'hour']:
         chk.ok('C16.M', 'time carry blocks run in increasing unit order (each carry is seen by the next block)')
